@@ -11,6 +11,7 @@ import (
 	sdk "github.com/cosmos/cosmos-sdk/types"
 	"github.com/lavanet/lava/v5/utils/sigs"
 	pairingtypes "github.com/lavanet/lava/v5/x/pairing/types"
+	planstypes "github.com/lavanet/lava/v5/x/plans/types"
 	projectstypes "github.com/lavanet/lava/v5/x/projects/types"
 
 	"verif/internal/ev"
@@ -255,19 +256,31 @@ func (m *RelayMon) AfterTx(s *Sim, r *TxRes) {
 		ek := fmt.Sprintf("%d|%s|%s|%s", ri.epochStart, rs.Provider, ri.project, rs.SpecId)
 		m.epochSum[ek] += ar.rewarded
 		if proj, err := ks.Projects.GetProjectForBlock(ctx, ri.project, ri.epochStart); err == nil {
-			if pa, err := sdk.AccAddressFromBech32(rs.Provider); err == nil {
-				if _, allowed, _, err := ks.Pairing.ValidatePairingForClient(ctx, rs.SpecId, pa, ri.epochStart, proj); err == nil {
-					factor := ks.Downtime.GetDowntimeFactor(ctx, ri.epochStart)
-					limit := allowed * factor
-					if factor != 0 && limit/factor != allowed {
-						limit = ^uint64(0)
-					}
-					if m.epochSum[ek] > limit {
-						m.v("C04", "epoch-allowance-exceeded", "sum credited for (epoch,provider,project,chain) > allowance*downtime factor", fmt.Sprintf("key %s credited sum=%d allowance=%d factor=%d after tx %s %s", ek, m.epochSum[ek], allowed, factor, r.Name, r.Desc), s, r.Step)
-					}
-					if m.epochSum[ek]*10 >= limit*8 {
-						m.Run.Count("credits_with_epoch_sum_at_or_above_80pct_of_allowance", 1)
-					}
+			// the per-epoch allowance is the smallest EpochCuLimit of the policies in force for that epoch (plan,
+			// subscription policy, admin policy); the code's own dynamic figure (also capped by CU left) is never larger
+			allowed := uint64(0)
+			upd := func(p *planstypes.Policy) {
+				if p != nil && p.EpochCuLimit != 0 && (allowed == 0 || p.EpochCuLimit < allowed) {
+					allowed = p.EpochCuLimit
+				}
+			}
+			if plan, err := ks.Subscription.GetPlanFromSubscription(ctx, proj.Subscription, ri.epochStart); err == nil {
+				pp := plan.PlanPolicy
+				upd(&pp)
+			}
+			upd(proj.AdminPolicy)
+			upd(proj.SubscriptionPolicy)
+			if allowed != 0 {
+				factor := ks.Downtime.GetDowntimeFactor(ctx, ri.epochStart)
+				limit := allowed * factor
+				if factor != 0 && limit/factor != allowed {
+					limit = ^uint64(0)
+				}
+				if m.epochSum[ek] > limit {
+					m.v("C04", "epoch-allowance-exceeded", "sum credited for (epoch,provider,project,chain) > allowance*downtime factor", fmt.Sprintf("key %s credited sum=%d allowance=%d factor=%d after tx %s %s", ek, m.epochSum[ek], allowed, factor, r.Name, r.Desc), s, r.Step)
+				}
+				if m.epochSum[ek]*10 >= limit*8 {
+					m.Run.Count("credits_with_epoch_sum_at_or_above_80pct_of_allowance", 1)
 				}
 			}
 		}
